@@ -182,6 +182,18 @@ func pkgVarAssigned(pk *packages.Package, v *types.Var) bool {
 					if id, ok := l.(*ast.Ident); ok && pk.TypesInfo.Uses[id] == v {
 						found = true
 					}
+					// an element of the variable (map entry, slice element)
+					if ie, ok := l.(*ast.IndexExpr); ok {
+						if id, ok := ie.X.(*ast.Ident); ok && pk.TypesInfo.Uses[id] == v {
+							found = true
+						}
+					}
+				}
+			case *ast.CallExpr:
+				if fid, ok := x.Fun.(*ast.Ident); ok && (fid.Name == "delete" || fid.Name == "clear") && len(x.Args) > 0 {
+					if id, ok := x.Args[0].(*ast.Ident); ok && pk.TypesInfo.Uses[id] == v {
+						found = true
+					}
 				}
 			case *ast.UnaryExpr:
 				if x.Op == token.AND {
